@@ -59,7 +59,9 @@ func highlight(code string, cfg Config, lateCb func(ui.Text)) (ui.Text, []ui.Tex
 	var text ui.Text
 	regions := getRegions(tree.Root)
 	regions = append(regions, errorRegions...)
+	verifTrace("RP", code, regions)
 	regions = fixRegions(regions)
+	verifTrace("RF", regions)
 	lastEnd := 0
 	var cmdRegions []cmdRegion
 
@@ -118,13 +120,16 @@ func highlight(code string, cfg Config, lateCb func(ui.Text)) (ui.Text, []ui.Tex
 		// late result to lateCb in another goroutine.
 		select {
 		case late := <-lateCh:
+			verifTrace("HF")
 			return late, tips
 		case <-time.After(maxBlockForLate):
+			verifTrace("HI")
 			go func() {
 				lateCb(<-lateCh)
 			}()
 			return text, tips
 		}
 	}
+	verifTrace("HN")
 	return text, tips
 }
